@@ -3,8 +3,8 @@
 (* Trace validation for C12 (tfm_pvalue) and C13 (tfm_score): every        *)
 (* refinement step reported by approximate_pvalue / approximate_score is   *)
 (* checked against the exact tail of Dist!ConvDist.                        *)
-(*  scores: matrix cells in units of 1/4 -> 1/8 (w8 = 2 * w4); query       *)
-(*  scores s8 / 8; granularity g = 1 / ginv (ginv = 10^k); thresholds      *)
+(*  scores: matrix cells in units of 1/G -> 1/U, U = 2 G (w = 2 * cell);   *)
+(*  query scores s8 / U; granularity g = 1 / ginv (ginv = 10^k); thresholds      *)
 (*  t = tk / ginv; probabilities as numerators over den = bd^M.            *)
 (* C12:  0 <= pmin <= pmax <= 1,                                           *)
 (*       P(S >= s + (M+1) g) <= pmin,   pmax <= P(S >= s - (M+2) g)        *)
@@ -20,10 +20,11 @@ InitState == 0
 
 Double(m) == [i \in 1..Len(m) |-> [k \in 1..Len(m[i]) |-> IF m[i][k] = NINF THEN NINF ELSE 2 * m[i][k]]]
 
-\* w8/8 >= s8/8 + c/ginv   <=>   (w8 - s8) * ginv >= 8 c
+\* scores in units of 1/U, U = 2 G:  w/U >= s/U + c/ginv   <=>   (w - s) * ginv >= U c
+Uof(e) == 2 * e.G
 PvIterOK(D, e, it, M) ==
-  LET lo == TailWhere(D, LAMBDA w : (w - e.s8) * it.ginv >= 8 * (M + 1))
-      hi == TailWhere(D, LAMBDA w : (w - e.s8) * it.ginv >= -(8 * (M + 2)))
+  LET lo == TailWhere(D, LAMBDA w : (w - e.s8) * it.ginv >= Uof(e) * (M + 1))
+      hi == TailWhere(D, LAMBDA w : (w - e.s8) * it.ginv >= -(Uof(e) * (M + 2)))
       sl == IF it.exact = 1 THEN 0 ELSE 1
   IN /\ 0 <= it.pmin /\ it.pmin <= it.pmax /\ it.pmax <= e.den + sl
      /\ lo - sl <= it.pmin
@@ -39,27 +40,29 @@ ApplyPv(s, e) ==
       fid == \A q \in 1..Len(e.iters) :
                (e.iters[q].ginv <= 10 /\ e.iters[q].exact = 1) =>
                  \E pm \in Perms(e.pssm, e.K) :
-                    LookupPv(e.pssm, pm, e.bn, e.bd, e.K, e.iters[q].ginv, e.s8, FALSE) = <<e.iters[q].pmin, e.iters[q].pmax>>
+                    LookupPv(e.pssm, pm, e.bn, e.bd, e.K, e.iters[q].ginv, e.G, e.s8, FALSE) = <<e.iters[q].pmin, e.iters[q].pmax>>
   IN [ok |-> progress /\ bad = {}, st |-> s,
       note |-> IF progress /\ bad = {} /\ ~fid THEN "TFM-PVALUE look-up differs from the I-layer model Tfm!LookupPv" ELSE "",
       exp |-> [why |-> IF ~progress THEN "no_iteration" ELSE "pvalue_range_outside_exact_tail_bounds",
                detail |-> IF bad = {} THEN <<>> ELSE
                   LET q == CHOOSE q \in bad : TRUE  it == e.iters[q] IN
                   <<it.k, it.pmin, it.pmax,
-                    TailWhere(D, LAMBDA w : (w - e.s8) * it.ginv >= 8 * (M + 1)),
-                    TailWhere(D, LAMBDA w : (w - e.s8) * it.ginv >= -(8 * (M + 2)))>>]]
+                    TailWhere(D, LAMBDA w : (w - e.s8) * it.ginv >= Uof(e) * (M + 1)),
+                    TailWhere(D, LAMBDA w : (w - e.s8) * it.ginv >= -(Uof(e) * (M + 2)))>>]]
 
-\* w8/8 >= tk/ginv + c/ginv  <=>  w8 * ginv >= 8 (tk + c)
+\* w/U >= tk/ginv + c/ginv  <=>  w * ginv >= U (tk + c)
 ScIterOK(D, e, it, M) ==
   LET d == M + 2
-      above == TailWhere(D, LAMBDA w : w * it.ginv >= 8 * (it.tk + d))
+      U == Uof(e)
+      above == TailWhere(D, LAMBDA w : w * it.ginv >= U * (it.tk + d))
       \* attainable scores strictly below t - d
-      below == {w \in Attainable(D) : w * it.ginv < 8 * (it.tk - d)}
-  IN /\ above * e.pd <= e.pn * e.den
+      below == {w \in Attainable(D) : w * it.ginv < U * (it.tk - d)}
+      \* p = pn / (pc den) for the sweep over attainable tails and midpoints (pc in {1, 2}), pn / pd otherwise
+      le(x) == IF e.pc > 0 THEN x * e.pc <= e.pn ELSE x * e.pd <= e.pn * e.den     \* x / den <= p
+      ge(x) == IF e.pc > 0 THEN x * e.pc >= e.pn ELSE x * e.pd >= e.pn * e.den     \* x / den >= p
+  IN /\ le(above)
      /\ below # {} =>
-          LET u == SetMax(below)
-              tailu == TailWhere(D, LAMBDA w : (w - u) * it.ginv >= -(8 * d))
-          IN tailu * e.pd >= e.pn * e.den
+          LET u == SetMax(below) IN ge(TailWhere(D, LAMBDA w : (w - u) * it.ginv >= -(U * d)))
 
 ApplySc(s, e) ==
   LET M == Len(e.pssm)
